@@ -197,6 +197,27 @@ func ruleCookieGate(c *Ctx, r *Report) {
 			okRet = false
 			badNext = "a return yields flight " + ro.Vals[0].String()
 		}
+		// the same, decided on values: with the helpers of the package followed, every return of
+		// the parser yields 'wait', the cookie flight or the abbreviated flight (which flight the
+		// resumption helper falls back to may be computed inside it)
+		allowed := func(v Val) bool {
+			return v == vInt(0) || v == vInt(fl["Flight2"]) || (v == vInt(fl["Flight4b"]) && fl["Flight4b"] != 0)
+		}
+		followFlight := func(callee *ssa.Function) bool {
+			// only helpers that answer with a flight: the rest of the parser's unit stays opaque
+			res := callee.Signature.Results()
+			return followSamePkg(f0)(callee) && res.Len() > 0 && strings.HasSuffix(namedOrType(res.At(0).Type()), ".Flight")
+		}
+		wf := (&Walk{Fn: f0, Follow: followFlight, Assume: assumeAll(atomAssume{mLoad(tCfg, "InsecureSkipHelloVerify"), vBool(false)})}).FromEntry()
+		followOK := len(wf.Returns) > 0 && !wf.overflow
+		for _, ro := range wf.Returns {
+			if len(ro.Vals) == 0 || !allowed(ro.Vals[0]) {
+				followOK = false
+			}
+		}
+		if followOK {
+			okRet, badNext = true, ""
+		}
 		r.Check(okRet && badNext == "", rule, short(f0), c.pos(f0.Pos()), "with hello verification on, the first ClientHello yields only 'wait', the cookie flight, or a resumption decided by handleHelloResume(next=Flight2)", "with hello verification on the first ClientHello can lead past the cookie flight: "+badNext)
 		if hr := c.Fn(v.pkg + ".handleHelloResume"); hr != nil {
 			// a tail call into a helper of the package that installs the session counts as what the
@@ -226,6 +247,18 @@ func ruleCookieGate(c *Ctx, r *Report) {
 				return true
 			}
 			good := retsOK(hr, 0)
+			if !good {
+				// or, on values: with hello verification on it yields failure, the cookie flight,
+				// the abbreviated flight or what the caller handed it
+				wh := (&Walk{Fn: hr, Follow: followFlight, Assume: assumeAll(atomAssume{mLoad(tCfg, "InsecureSkipHelloVerify"), vBool(false)})}).FromEntry()
+				good = len(wh.Returns) > 0 && !wh.overflow
+				for _, ro := range wh.Returns {
+					_, isP := unspill(ro.Ret.Results[0]).(*ssa.Parameter)
+					if !isP && (len(ro.Vals) == 0 || !allowed(ro.Vals[0])) {
+						good = false
+					}
+				}
+			}
 			r.Check(good, rule, short(hr), c.pos(hr.Pos()), "returns only failure, the abbreviated flight of a known session, or the caller's next flight", "handleHelloResume can return a flight other than Flight4b / the caller's choice")
 		}
 		// second hello: success guarded by the validation, against the issued cookie
@@ -327,12 +360,56 @@ func ruleCookieGate(c *Ctx, r *Report) {
 			n++
 			reads := findCalls(st.Fn, nameIs("crypto/rand.Read"))
 			filled := false
+			verifyOn := []atomAssume{{mLoad(tCfg, "InsecureSkipHelloVerify"), vBool(false)}}
 			for _, rd := range reads {
 				if isFieldLoad(rd.Call.Args[0], owner, "Cookie") {
 					if ret := lastReturnNil(st.Fn); ret != nil {
-						why := passesUnder(st.Fn, []atomAssume{{mLoad(tCfg, "InsecureSkipHelloVerify"), vBool(false)}}, rd, errResult(rd), ret)
+						why := passesUnder(st.Fn, verifyOn, rd, errResult(rd), ret)
 						filled = why == ""
 					}
+				}
+				if !filled && (rd.Call.Args[0] == st.Val || isFieldLoad(rd.Call.Args[0], owner, "Cookie")) {
+					// the buffer is drawn in a helper of its own: no return of the helper without
+					// the read, none that can be nil after the read failed, and each caller gives
+					// up when the helper fails
+					mayBeNil := func(ro *RetOutcome) bool {
+						last := len(ro.Vals) - 1
+						return last < 0 || !(ro.Vals[last].Kind == 2 && !ro.Vals[last].B)
+					}
+					rd0 := rd
+					w1 := &Walk{Fn: st.Fn, Assume: assumeAll(verifyOn...)}
+					w1.Visit = func(in ssa.Instruction, _ Env) bool { return in != ssa.Instruction(rd0) }
+					w1.FromEntry()
+					okHelper := !w1.overflow
+					for _, ro := range w1.Returns {
+						if mayBeNil(ro) {
+							okHelper = false
+						}
+					}
+					fail := failAssumption(errResult(rd))
+					w2 := (&Walk{Fn: st.Fn, Assume: func(v ssa.Value) (Val, bool) {
+						if x, ok := fail(v); ok {
+							return x, true
+						}
+						return assumeAll(verifyOn...)(v)
+					}}).FromEntry()
+					for _, ro := range w2.Returns {
+						if mayBeNil(ro) {
+							okHelper = false
+						}
+					}
+					sites, complete := c.staticCallers(st.Fn)
+					if !complete || len(sites) == 0 {
+						okHelper = false
+					}
+					for _, cs := range sites {
+						hc, isCall := cs.Call.(*ssa.Call)
+						ret := lastReturnNil(cs.Fn)
+						if !isCall || ret == nil || passesUnder(cs.Fn, verifyOn, hc, errResult(hc), ret) != "" {
+							okHelper = false
+						}
+					}
+					filled = okHelper
 				}
 			}
 			r.Check(k >= 16 && filled, rule, "cookie<-"+short(st.Fn), c.ipos(st.Instr), fmt.Sprintf("cookie = %d fresh bytes from crypto/rand (checked) whenever hello verification is on", k), "the cookie is not a fresh crypto/rand value of at least 16 bytes on every path with hello verification on")
@@ -570,6 +647,48 @@ func ruleSessionStore(c *Ctx, r *Report) {
 				if ret := lastReturnNil(fn); ret != nil {
 					g, _ := guardedBy(p, errResult(p), ret)
 					okP = g
+				}
+			}
+		}
+		if !okP {
+			// the random may be drawn in a helper that is handed &state.LocalRandom: the helper
+			// succeeds only after Populate did, and the generator only after the helper
+			for _, hc := range findCalls(fn, func(string) bool { return true }) {
+				g := hc.Call.StaticCallee()
+				if g == nil || g.Pkg != fn.Pkg || len(g.Blocks) == 0 {
+					continue
+				}
+				for i, a := range hc.Call.Args {
+					if _, f, _, ok := fieldOfAddr(a); !ok || f != "LocalRandom" || i >= len(g.Params) {
+						continue
+					}
+					par := g.Params[i]
+					for _, p := range findCalls(g, nameHasSuffix("handshake.Random).Populate")) {
+						if p.Call.Args[0] != ssa.Value(par) {
+							continue
+						}
+						inner := true
+						cnt := 0
+						for _, b := range g.Blocks {
+							ret, isRet := b.Instrs[len(b.Instrs)-1].(*ssa.Return)
+							if !isRet || b == g.Recover || len(ret.Results) == 0 {
+								continue
+							}
+							res := retResults(ret)
+							if !isNilConst(res[len(res)-1]) {
+								continue
+							}
+							cnt++
+							if ok2, _ := guardedBy(p, errResult(p), ret); !ok2 {
+								inner = false
+							}
+						}
+						if ret := lastReturnNil(fn); ret != nil && inner && cnt > 0 {
+							if ok3, _ := guardedBy(hc, errResult(hc), ret); ok3 {
+								okP = true
+							}
+						}
+					}
 				}
 			}
 		}
@@ -897,6 +1016,74 @@ func ruleSecondHelloEqualsFirst(c *Ctx, r *Report) {
 			have[ra] = true
 		case (ra == "cookie" && pa != "" && isParamIdx(b, 2)) || (rb == "cookie" && pb != "" && isParamIdx(a, 2)):
 			have["cookie"] = true
+		}
+	}
+	// the two outer comparisons may sit in a yes/no helper that is handed both split hellos: it
+	// answers true only if the same field of both compares equal, and the validation succeeds
+	// only if it answers true
+	for _, hc := range findCalls(fn, func(string) bool { return true }) {
+		h := hc.Call.StaticCallee()
+		if h == nil || h.Pkg != fn.Pkg || len(h.Blocks) == 0 || len(h.Params) != 2 || len(hc.Call.Args) != 2 {
+			continue
+		}
+		if res := h.Signature.Results(); res.Len() != 1 || !types.Identical(res.At(0).Type().Underlying(), types.Typ[types.Bool]) {
+			continue
+		}
+		// each argument: the result of the splitter applied to one of the two snapshots
+		var si *splitInfo
+		which := [2]string{}
+		for i, a := range hc.Call.Args {
+			for _, l := range append(c.Origins(rootValueDeep(a), 0), rootValueDeep(a)) {
+				cl, ok := l.(*ssa.Call)
+				if !ok || len(cl.Call.Args) != 1 {
+					continue
+				}
+				sp := cl.Call.StaticCallee()
+				pp, isP := cl.Call.Args[0].(*ssa.Parameter)
+				if sp == nil || sp.Pkg != fn.Pkg || len(sp.Blocks) == 0 || !isP {
+					continue
+				}
+				si = analyse(sp)
+				which[i] = fmt.Sprint(paramIndex(pp))
+			}
+		}
+		if si == nil || which[0] == "" || which[1] == "" || which[0] == which[1] || !guardsAll(hc) {
+			continue
+		}
+		fieldOfParam := func(v ssa.Value) (int, int) { // (parameter index of h, field index)
+			switch y := v.(type) {
+			case *ssa.Field:
+				if p, ok := unspill(y.X).(*ssa.Parameter); ok && p.Parent() == h {
+					return paramIndex(p), y.Field
+				}
+			case *ssa.UnOp:
+				if fa, ok := y.X.(*ssa.FieldAddr); ok {
+					if al, isAl := fa.X.(*ssa.Alloc); isAl {
+						if p := spilledParam(al); p != nil && p.Parent() == h {
+							return paramIndex(p), fa.Field
+						}
+					}
+				}
+			}
+			return -1, -1
+		}
+		for _, e := range findCalls(h, nameIs("bytes.Equal", "crypto/subtle.ConstantTimeCompare", "crypto/hmac.Equal")) {
+			pa, fa := fieldOfParam(e.Call.Args[0])
+			pb, fb := fieldOfParam(e.Call.Args[1])
+			if pa < 0 || pb < 0 || pa == pb || fa != fb {
+				continue
+			}
+			// the helper cannot answer true when this comparison fails
+			w := (&Walk{Fn: h, Assume: failAssumption(e)}).FromEntry()
+			strict := len(w.Returns) > 0 && !w.overflow
+			for _, ro := range w.Returns {
+				if len(ro.Vals) != 1 || ro.Vals[0].Kind != 1 || ro.Vals[0].B {
+					strict = false
+				}
+			}
+			if role := si.role[fa]; strict && (role == "before" || role == "after") {
+				have[role] = true
+			}
 		}
 	}
 	r.Check(have["before"], rule, short(fn)+":before-cookie", c.pos(fn.Pos()), "bytes before the cookie compared as bytes; success only if equal", "the second ClientHello is accepted without a byte comparison of the part before the cookie with the first ClientHello")
@@ -1352,6 +1539,12 @@ func ruleDowngradeSentinel(c *Ctx, r *Report) {
 			if _, f, _, ok := fieldLoad(a); ok && (f == "MaxVersion" || f == "MinVersion") {
 				field = f
 			}
+			// a helper that is handed the version: every caller hands it cfg.MaxVersion
+			if _, isP := unspill(a).(*ssa.Parameter); isP {
+				if c.allResolved(a, func(x ssa.Value) bool { _, f, _, ok := fieldLoad(x); return ok && f == "MaxVersion" }) {
+					field = "MaxVersion"
+				}
+			}
 			if u, ok := a.(*ssa.UnOp); ok {
 				if g, ok := u.X.(*ssa.Global); ok {
 					ver = g.Name()
@@ -1370,6 +1563,53 @@ func ruleDowngradeSentinel(c *Ctx, r *Report) {
 		w.FromEntry()
 		marked := false
 		var marks []*ssa.Call
+		// the element-by-element form: tail[i] = sentinel[i] for i over the whole tail, tail =
+		// RandomBytes[20:]
+		for in := range w.Reached {
+			st, ok := in.(*ssa.Store)
+			if !ok {
+				continue
+			}
+			ia, ok := st.Addr.(*ssa.IndexAddr)
+			if !ok {
+				continue
+			}
+			sl, ok := ia.X.(*ssa.Slice)
+			if !ok || sl.High != nil || sl.Low == nil {
+				continue
+			}
+			if _, f, _, okF := fieldOfAddr(sl.X); !okF || f != "RandomBytes" {
+				continue
+			}
+			if k, isK := constInt(sl.Low); !isK || k != 28-int64(len(want)) {
+				continue
+			}
+			ld, ok := st.Val.(*ssa.UnOp)
+			if !ok {
+				continue
+			}
+			src, ok := ld.X.(*ssa.IndexAddr)
+			if !ok || src.X != ssa.Value(sentinel) || src.Index != ia.Index {
+				continue
+			}
+			// the index runs over the whole tail
+			whole := false
+			if refs := ia.Index.Referrers(); refs != nil {
+				for _, ref := range *refs {
+					if bo, isBo := ref.(*ssa.BinOp); isBo && bo.Op == token.LSS && bo.X == ia.Index {
+						if ln, isLen := bo.Y.(*ssa.Call); isLen && calleeName(&ln.Call) == "builtin:len" && ln.Call.Args[0] == ssa.Value(sl) {
+							whole = true
+						}
+						if k, isK := constInt(bo.Y); isK && k == int64(len(want)) {
+							whole = true
+						}
+					}
+				}
+			}
+			if whole {
+				marked = true
+			}
+		}
 		for in := range w.Reached {
 			cl, ok := in.(*ssa.Call)
 			if !ok || calleeName(&cl.Call) != "builtin:copy" || len(cl.Call.Args) != 2 || !isSentinel(cl.Call.Args[1]) {
